@@ -137,7 +137,8 @@ CLAIMED = {
          "y-gradients of every mode as exact polynomial identities in Q[x,y] for nzrad <= 12 (91 modes), also stated as real derivatives; and, at pixel "
          "level for every N, that modes vanish outside the inscribed pupil, have unit RMS / unit peak-to-valley under the other normalisations, that an "
          "array from an index list equals the matching slices of the array from a count (any carrier) and that a phase from coefficients is that "
-         "linear combination. "
+         "linear combination, and that the rotated cos/sin pair of any (n, m > 0) is the 2 x 2 rotation of the unrotated pair while m = 0 modes "
+         "ignore the angle. "
          "zernIndex is compared exhaustively (2e4/2e5 indices plus float-sqrt stress up to 2^44) and the mode generators, normalisations, "
          "phaseFromZernikes and makegammas entrywise with the model. A defect that made every mode generator raise was repaired (0b9c15b)."),
    ref="5 C12",
@@ -166,12 +167,17 @@ CLAIMED = {
    ref="5 C16",
    note="FITPACK spline enters by contract (interpolation, linearity, polynomial reproduction tested numerically); polynomial reproduction / linearity of FITPACK itself are contracts."),
  "C06": dict(
-   technique="Coq proof over an effect model instantiated with a footprint table regenerated from source + dynamic interleaving/bitwise reproduction runs",
+   technique="Coq proof over an effect model instantiated with a footprint table regenerated from source + Coq state machine of seeded objects (induction over histories) with history correspondence by symbolic vm_compute runs + dynamic interleaving/bitwise reproduction runs",
    text=("The syntactic footprint of every function (in-place writes through parameters and their aliases, returned aliases, use of NumPy's "
          "legacy global generator / random / time, module-level mutable objects incl. ones returned by helpers, memoisation; closed under calls) "
          "is regenerated from the source on every run; Coq checks on that table that no screen function touches process-global state and that no "
          "other function does except the listed one, and proves for every semantics consistent with the footprints that the result of a call is "
-         "the same wherever it stands in any program of such calls. Dynamically, seeded FFT / sub-harmonic / infinite screens (incl. every added "
+         "the same wherever it stands in any program of such calls. A second model (SeededObjs.v) is the generator discipline as a state "
+         "machine -- any number of seeded screen objects, seeded FFT calls and the process-global generator under arbitrary operation lists, "
+         "for an arbitrary generator and arbitrary numerical maps: an object's outputs are a function of its own history alone, "
+         "make_initial_screen() again restarts from the seed, the global generator is a separate cell, seeded FFT calls are stateless; it is "
+         "tied to the code by running the same histories on a symbolic generator (vm_compute) and requiring the implementation's outputs to "
+         "fall into exactly the model's classes of bit-identical results. Dynamically, seeded FFT / sub-harmonic / infinite screens (incl. every added "
          "row, boundary seeds 0 and numpy integers) are compared bitwise with isolated runs and with a fresh interpreter under random "
          "interleavings of other instances, global-state changes and unrelated calls."),
    ref="5 C06",
@@ -216,7 +222,8 @@ CLAIMED = {
    technique="Coq proof (list/sum algebra over R, carrier-generic index bounds, binary64 regression witnesses) over a hand model + bit-exact / recorded-restart vm_compute correspondence",
    text=("Machine-checked proofs that equivalent_layers returns exactly L layers (any carrier), assigns every input layer to a slab 1..L (upper "
          "bound for any carrier, hence for the rounded execution), conserves the total Cn2 exactly for every profile and L >= 1, has non-negative "
-         "strengths and conserves the 5/3 height and wind moments for non-negative strengths (shown necessary); that optimal grouping's splits "
+         "strengths and conserves the 5/3 height and wind moments for non-negative strengths (shown necessary), and does not depend on the order "
+         "in which the layers are listed (any permutation); that optimal grouping's splits "
          "always describe a partition into non-empty consecutive groups preserved by every move of the local search, that it returns exactly L "
          "layers, input heights in strictly increasing order, non-negative strengths summing to the input total, with a cost never above the "
          "equal split whatever the random restarts and iteration count; the L = 1 case returns nothing (refuted clause, known finding). "
